@@ -19,8 +19,10 @@ pub const MAX_BYTES: usize = 16 * 1024;
 /// query, so there the query name is the call-site-like key.
 pub fn panic_sig(p: &panics::PanicRec) -> String {
     if let Some(rest) = p.msg.strip_prefix("dependency graph cycle when querying ") {
-        let q: String = rest.chars().take_while(|c| c.is_alphanumeric() || *c == '_').collect();
-        return format!("salsa-cycle:{q}");
+        // One family (DESIGN 5/C09): queries without cycle recovery panic on self-referential
+        // items; the query name is reported in the description, not in the key.
+        let _q: String = rest.chars().take_while(|c| c.is_alphanumeric() || *c == '_').collect();
+        return "salsa-cycle".to_string();
     }
     format!("panic@{}", p.loc)
 }
